@@ -99,6 +99,23 @@ CLAIMED = {
             "over the same scenario bodies.", "6 C12"),
 }
 
+STRUCT = (" Beyond the unstructured search, closed structured families (DESIGN.md 13.3; each enumerated completely and listed with its size in the evidence's coverage.bound) "
+          "take the same oracle to taller and deeper histories: ")
+SUFFIX = {
+    "C01": STRUCT + "11-13 and 16-65 leaves with aligned-union / window / interval (gap) deletion sets, every two-deletion-block history on 7-9 leaves, 255..1025 leaves, long chains, forests restored from bytes, instances queried at intermediate states, descending target lists and trailing unused proof hashes, and Stump / partial forests started from bare roots of accumulators with up to 2^63-4 leaves.",
+    "C02": STRUCT + "the C01 families with the proof oracle, forests restored from bytes, full forests started from bare roots, instances queried at intermediate states.",
+    "C06": STRUCT + "the C01 families each followed by one to four undos, descending target lists / trailing unused proof hashes on blocks, undos and Verify(remember), a cross-feature family (undo x Verify(remember) x restore), three undos in a row, partial forests from bare roots.",
+    "C10": STRUCT + "the C01 families with the look-up oracle and instances queried at intermediate states.",
+    "C07": STRUCT + "11-17 leaves (three blocks), aligned unions on 16-33 leaves with two-leaf remember sets, the interval (gap) family on 21/27 leaves, every two-deletion-block history on 8-9 leaves, 127..513 leaves, descending block targets and remember lists, bare roots of accumulators with up to 2^63-4 leaves.",
+    "C08": STRUCT + "the C07 families, each undone block by block, and three undos in a row.",
+    "C11": STRUCT + "the C07 families without remembering.",
+    "C09": STRUCT + "Verify(remember) with allocated-row targets, descending argument lists, 11-17 leaves (three blocks), aligned unions with undo, the interval (gap) family on 21 leaves, every two-deletion-block history on 7-8 leaves undone twice, forests started from bare roots of accumulators with up to 2^63-4 leaves.",
+    "C05": STRUCT + "states reached through a restore or an undo, structured states on 8-17 leaves, rolled-back states, offset-start states.",
+    "C03": STRUCT + "offset-start states (up to 63 proof hashes) and the stale-claim family: instances with a history (blocks, one Verify(remember), one Undo) are offered every honest proof of the neighbouring state.",
+    "C13": STRUCT + "a size sweep over every forest size 1..140/700 and size-query schedules (SerializeSize / GetTotalCount queried after no / block / undo / every operation).",
+    "C15": STRUCT + "the same summaries with descending target lists.",
+}
+
 NOT_YET = {
 }
 
@@ -116,7 +133,7 @@ def main():
                 "evidence_file": f"/verif/evidence/{pid}.json",
                 "replay_cmd_template": "./replay.sh {path}",
                 "engine": eng,
-                "level_claimed": {"category": "model_checking", "text": text, "design_ref": "DESIGN.md section " + ref},
+                "level_claimed": {"category": "model_checking", "text": text + SUFFIX.get(pid, ""), "design_ref": "DESIGN.md section " + ref + " and 13.3"},
                 "level_note": TB,
                 "technique": tech,
             })
